@@ -383,6 +383,52 @@ fn gcd(a: usize, b: usize) -> usize {
   }
 }
 
+
+/// SUPPLEMENTARY (free-running schedules, not enumerated): one server object used from several threads at once
+fn run_concurrent_callers(cx: &mut CaseCx, case: &Value) {
+  let t = case["t"].as_u64().unwrap() as u32;
+  let sizes: Vec<usize> = (0..12).map(|i| 1 + (i * 5 + 2) % (2 * t as usize)).collect();
+  let reps = match make_reports(cx, t, &sizes, false) {
+    Some(r) => r,
+    None => return,
+  };
+  let server = AggregationServer::new(t, "t");
+  let all: Vec<&Rep> = reps.iter().collect();
+  let want = expected(&all, t);
+  // every caller gets its own permutation of the same multiset, and a sub-multiset (first half of the groups)
+  let half: Vec<&Rep> = reps.iter().filter(|r| r.meas.len() % 2 == 0).collect();
+  let want_half = expected(&half, t);
+  cx.nontrivial(fnv_str(&case.to_string()));
+  for round in 0..8 {
+    let results: Vec<(Result<Vec<(Vec<u8>, Vec<Aux>)>, String>, bool)> = std::thread::scope(|s| {
+      let hs: Vec<_> = (0..6usize)
+        .map(|k| {
+          let (server, reps, half) = (&server, &reps, &half);
+          s.spawn(move || {
+            let pool = rayon::ThreadPoolBuilder::new().num_threads(1 + k % 3).build().expect("pool");
+            if k % 2 == 0 {
+              let n = reps.len();
+              let stride = (2 * k + 1..).find(|s| gcd(*s, n) == 1).unwrap();
+              let msgs: Vec<Message> = (0..n).map(|i| reps[(i * stride + round) % n].msg.clone()).collect();
+              (observe(server, &pool, &msgs), false)
+            } else {
+              let msgs: Vec<Message> = half.iter().rev().map(|r| r.msg.clone()).collect();
+              (observe(server, &pool, &msgs), true)
+            }
+          })
+        })
+        .collect();
+      hs.into_iter().map(|h| h.join().unwrap_or((Err("caller thread died".into()), false))).collect()
+    });
+    for (k, (got, is_half)) in results.into_iter().enumerate() {
+      if !judge(cx, got, if is_half { &want_half } else { &want }, &|| json!({"t": t, "concurrent_caller": k, "round": round, "note": "six threads called retrieve_outputs on one server object at the same time (free-running)"})) {
+        return;
+      }
+    }
+  }
+  cx.count("concurrent_rounds", 8);
+}
+
 fn size_vectors(t: usize, max_groups: usize) -> Vec<Vec<usize>> {
   // all non-decreasing vectors (groups are interchangeable) of 1..=max_groups sizes in 1..=2t
   let mut out = vec![];
@@ -474,6 +520,13 @@ pub fn spec() -> PropSpec {
         gen: |tier| if tier.thorough() { vec![json!({"t": 2, "groups": 2500}), json!({"t": 3, "groups": 3000}), json!({"t": 1, "groups": 6000})] } else { vec![json!({"t": 2, "groups": 2000})] },
         run: run_large_input,
         min_counts: &[("reports_in_large_input", 4200)],
+      },
+      Check {
+        name: "concurrent-callers (supplementary)",
+        rule: "SUPPLEMENTARY, schedules free-running: six threads call retrieve_outputs on ONE server object at the same time (own pools of 1..3 workers, own permutations, half of them a sub-multiset), 8 rounds: every caller gets exactly the reference result of ITS input",
+        gen: |_| (1..=3u64).map(|t| json!({"t": t})).collect(),
+        run: run_concurrent_callers,
+        min_counts: &[("concurrent_rounds", 8)],
       },
       Check {
         name: "many-groups",
